@@ -188,6 +188,123 @@ fn run_case(cfg: RtCfg, prog: &Arc<Program>, probe: ProbeSpec) -> Result<u64, St
     }
 }
 
+// ---- net level: messages injected from outside (add_message_onto / handle_message_on) -----
+
+mod netprobe {
+    use des::prelude::*;
+    use std::sync::{Arc, Mutex};
+    use vcheck::quiet_catch;
+
+    type Log = Arc<Mutex<Vec<(u16, u128)>>>;
+    struct Recv {
+        log: Log,
+    }
+    impl Module for Recv {
+        fn at_sim_start(&mut self, _: usize) {
+            self.log.lock().unwrap().push((0, SimTime::now().as_nanos()));
+            schedule_in(Message::default().kind(1), Duration::from_nanos(2));
+            schedule_in(Message::default().kind(2), Duration::from_nanos(9));
+        }
+        fn handle_message(&mut self, m: Message) {
+            self.log.lock().unwrap().push((m.header().kind, SimTime::now().as_nanos()));
+        }
+    }
+
+    #[derive(Clone, Copy, Debug, PartialEq)]
+    pub struct NetCase {
+        pub n: usize,
+        pub t: u64,
+        pub start: u64,
+        /// false: add_message_onto(gate); true: handle_message_on(module)
+        pub direct: bool,
+        /// false: inject before run; true: start, dispatch one event, inject while paused
+        pub paused: bool,
+        /// injection time relative to the runtime's reported time
+        pub offset: i64,
+    }
+
+    pub fn run(c: NetCase) -> Result<u64, String> {
+        let r = quiet_catch(move || -> Result<Vec<(u16, u128)>, String> {
+            let log: Log = Default::default();
+            let mut sim = Sim::new(());
+            sim.node("m", Recv { log: log.clone() });
+            let g = sim.gate("m", "in");
+            let mut rt = Builder::seeded(1)
+                .quiet()
+                .cqueue_options(c.n, Duration::from_nanos(c.t))
+                .start_time(SimTime::from_duration(Duration::from_nanos(c.start)))
+                .build(sim.freeze());
+            let m = rt.app.get(&"m".into()).ok_or("module lookup failed")?;
+            if c.paused {
+                rt.start();
+                rt.dispatch_n_events(1);
+            }
+            let now = rt.sim_time().as_nanos() as i64;
+            let at = now + c.offset;
+            if at < 0 {
+                return Ok(vec![(u16::MAX, 0)]);
+            }
+            let at_t = SimTime::from_duration(Duration::from_nanos(at as u64));
+            let rtm = &mut rt;
+            let rejected = std::panic::catch_unwind(std::panic::AssertUnwindSafe(|| {
+                if c.direct {
+                    rtm.handle_message_on(m.clone(), Message::default().kind(77), at_t);
+                } else {
+                    rtm.add_message_onto(g.clone(), Message::default().kind(77), at_t);
+                }
+            }))
+            .is_err();
+            if c.offset < 0 && !rejected {
+                // show the consequence
+                let _ = if c.paused {
+                    rt.dispatch_all();
+                    rt.finish().map(|_| ())
+                } else {
+                    rt.run().map(|_| ())
+                };
+                let l = log.lock().unwrap().clone();
+                let rew = l.iter().find(|e| e.0 == 77);
+                return Err(format!(
+                    "a message injected at {at}ns was accepted although the simulation time is {now}ns{}",
+                    rew.map_or(String::new(), |e| format!("; it was handled with the clock at {}ns", e.1))
+                ));
+            }
+            if c.offset >= 0 && rejected {
+                return Err(format!("a message injected at {at}ns (simulation time {now}ns) was rejected"));
+            }
+            let res = if c.paused {
+                rt.dispatch_all();
+                rt.finish().map(|_| ())
+            } else {
+                rt.run().map(|_| ())
+            };
+            res.map_err(|e| format!("run returned an error: {e:?}"))?;
+            let l = log.lock().unwrap().clone();
+            let mut exp: Vec<(u16, u128)> = vec![(0, u128::from(c.start)), (1, u128::from(c.start) + 2), (2, u128::from(c.start) + 9)];
+            if c.offset >= 0 {
+                exp.push((77, at as u128));
+            }
+            exp.sort_by_key(|e| e.1);
+            let mut got = l.clone();
+            got.sort_by_key(|e| e.1);
+            if l.windows(2).any(|w| w[0].1 > w[1].1) {
+                return Err(format!("clock went backwards: handled (kind, time) {l:?}"));
+            }
+            let (mut g2, mut e2) = (got.clone(), exp.clone());
+            g2.sort_unstable();
+            e2.sort_unstable();
+            if g2 != e2 {
+                return Err(format!("handled (kind, time) {l:?}, expected {exp:?}"));
+            }
+            Ok(l)
+        });
+        match r {
+            Err(m) => Err(format!("panicked: {m}")),
+            Ok(x) => x.map(|l| vcheck::fp(&l)),
+        }
+    }
+}
+
 fn case_json(cfg: RtCfg, prog: &Program, probe: ProbeSpec) -> Value {
     let p = match probe {
         ProbeSpec::None => json!(null),
@@ -206,7 +323,7 @@ impl Property for C02 {
         format!(
             "every event program (forest) with 1..={} events (per configuration: third number), delays from {{0,1,t-1,t,t+1,Y,Y+1}}, x start time in {{0,5,Y+1}} x (n,t,max events) in {:?}, run on the real Runtime; \
              per program: one plain run + a probe add_event(now - d), d in {{0 (must be accepted), 1, t, start}}, placed before run and inside every handler; for programs of up to 3 (quick) / 4 (thorough) events also: start, dispatch_n_events(k) for every k, add_event from outside at every time around the program's timestamps that is not in the past of the paused runtime, run to the end (clock and timestamps must stay right); \
-             a case is one (program, start, config, probe placement) and all are distinct by construction; non-trivial = at least 2 events or a probe",
+             plus, at the network level, messages injected through Runtime::add_message_onto / handle_message_on at 8 offsets around the reported time (before run and while paused, 4 start times): past ones must be rejected, the others handled at exactly their time; a case is one (program, start, config, probe placement) and all are distinct by construction; non-trivial = at least 2 events or a probe",
             tier.pick(4, 5),
             cfgs(tier)
         )
@@ -218,9 +335,39 @@ impl Property for C02 {
         ]
     }
     fn required_features(&self, _tier: Tier) -> Vec<&'static str> {
-        vec!["plain_run", "probe_past_before_run", "probe_past_in_handler", "probe_now_in_handler", "program_with_zero_delay_child", "program_spanning_a_year", "external_add_while_paused"]
+        vec!["plain_run", "probe_past_before_run", "probe_past_in_handler", "probe_now_in_handler", "program_with_zero_delay_child", "program_spanning_a_year", "external_add_while_paused", "net_injection_into_the_past", "net_injection_at_or_after_now"]
     }
     fn explore(&self, ctx: &mut Ctx) {
+        // net level: injections through add_message_onto / handle_message_on
+        for (n, t, _) in cfgs(ctx.tier) {
+            let y = n as u64 * t;
+            for start in [0, 5, y + 1, 1_000] {
+                for direct in [false, true] {
+                    for paused in [false, true] {
+                        for offset in [-(start.max(1) as i64), -(t as i64), -1, 0, 1, 3, y as i64, y as i64 + 1] {
+                            if !ctx.mine() {
+                                continue;
+                            }
+                            let c = netprobe::NetCase { n, t, start, direct, paused, offset };
+                            ctx.begin(|| json!({"net_probe": format!("{c:?}"), "n": n, "t_ns": t, "start_ns": start, "direct": direct, "paused": paused, "offset_ns": offset}));
+                            ctx.out.evaluations += 1;
+                            ctx.out.traces += 1;
+                            ctx.out.states += 1;
+                            ctx.out.nontrivial += 1;
+                            ctx.hit(if offset < 0 { "net_injection_into_the_past" } else { "net_injection_at_or_after_now" });
+                            match netprobe::run(c) {
+                                Ok(o) => ctx.outcome(o),
+                                Err(d) => ctx.violation(
+                                    "violation",
+                                    || json!({"net_probe": format!("{c:?}"), "n": n, "t_ns": t, "start_ns": start, "direct": direct, "paused": paused, "offset_ns": offset}),
+                                    d,
+                                ),
+                            }
+                        }
+                    }
+                }
+            }
+        }
         for (n, t, maxm) in cfgs(ctx.tier) {
             let y = n as u64 * t;
             let deltas = deltas_for(n, t);
@@ -310,6 +457,17 @@ impl Property for C02 {
         }
     }
     fn replay(&self, case: &Value) -> Result<(), String> {
+        if case.get("net_probe").is_some() {
+            return netprobe::run(netprobe::NetCase {
+                n: case["n"].as_u64().unwrap() as usize,
+                t: case["t_ns"].as_u64().unwrap(),
+                start: case["start_ns"].as_u64().unwrap(),
+                direct: case["direct"].as_bool().unwrap(),
+                paused: case["paused"].as_bool().unwrap(),
+                offset: case["offset_ns"].as_i64().unwrap(),
+            })
+            .map(|_| ());
+        }
         let cfg = RtCfg { n: case["n"].as_u64().unwrap() as usize, t: case["t_ns"].as_u64().unwrap(), start: case["start_ns"].as_u64().unwrap() };
         let prog = Arc::new(Program::from_json(&case["program"]));
         let p = &case["probe"];
